@@ -6,7 +6,6 @@ sys.path.insert(0, os.path.join(HERE, "scripts"))
 import propcfg
 
 NA = [
-    {"property_id": "C16", "reason": "pure function of its input (value encoding/decoding, sequential storage): nothing for a simulator to decide; see DESIGN.md section 6"},
 ]
 ALL = ["C%02d" % i for i in range(1, 21)]
 checks = []
